@@ -96,9 +96,27 @@ def hx(window):
     return bool((f0 & d1) or (f1 & d0))
 
 
-def any_hazard(sched):
+def hc(window, flavour):
+    """Path-id side: an object that already has an operation (create, mkdir, write, rename) in this window is renamed or
+    deleted -- its path id vanishes while a change is pending, and the sync step can meet the vanished id before the
+    rename/delete event is consumed."""
+    seen = set()
+    for op in window:
+        if flavour[op["side"]] != "p" or op.get("obj") in (None, 0):
+            continue
+        key = (op["side"], op.get("obj"))
+        if op["op"] in ("rename", "delete", "rmdir") and key in seen:
+            return True
+        if op["op"] in ("create", "mkdir", "write", "rename"):
+            seen.add(key)
+    return False
+
+
+def any_hazard(sched, flavour=None):
     hs = set()
     for w in windows(sched):
+        if flavour is not None and hc(w, flavour):
+            hs.add("HC")
         if hd(w):
             hs.add("HD")
         if hf(w):
